@@ -96,14 +96,16 @@ pub fn judge(acc: &mut Acc, wd: &mut Workdir, src: &str, args: &[i64], reference
         let stage = b.split(':').next().unwrap_or("").to_string();
         acc.violation(format!("C01:mismatch:{stage}"), what, replay(&b));
     } else if valgrind {
+        // an exit code that the program itself does not use
+        let vg_code = if code == 97 { 98 } else { 97 };
         let mut cmd = std::process::Command::new("valgrind");
-        cmd.args(["-q", "--error-exitcode=97", "--"]).arg(&exe);
+        cmd.args(["-q", &format!("--error-exitcode={vg_code}"), "--"]).arg(&exe);
         for a in args {
             cmd.arg(a.to_string());
         }
         if let Ok(v) = native::run_exe(&mut cmd, Duration::from_secs(120)) {
             acc.count("valgrind_runs");
-            if v.status == Some(97) {
+            if v.status == Some(vg_code) {
                 let msg: String = String::from_utf8_lossy(&v.stderr).chars().take(400).collect();
                 acc.violation("C01:valgrind", format!("valgrind memcheck reports an error in the native run: {msg}"), replay(&msg));
             }
